@@ -2,14 +2,14 @@
    sumbool are mapped to OCaml's; Z, N, positive, nat stay Coq datatypes; no Extract Constant. *)
 From Coq Require Import Strings.String Floats.SpecFloat.
 Require Import Model.Base Model.Syntax Model.F64 Model.Lexer Model.Builder Model.Value Model.Context
-               Model.Builtins Model.Eval Model.Iter Model.Interface Model.Script.
+               Model.Builtins Model.Eval Model.Iter Model.Interface Model.Script Model.InterfaceGen.
 Require Extraction.
 Require Import ExtrOcamlBasic.
 Extraction Language OCaml.
 Extraction "model.ml"
   s2l tokenize str_to_partial_tokens tokens_to_operator_tree build_operator_tree
   f_of_bits bits_of_f parse_float
-  run_script initial_ctx apply_libfn
+  run_script step run_entry_gen initial_ctx apply_libfn
   iter_all iter_identifiers iter_variable_identifiers iter_read_variable_identifiers
   iter_write_variable_identifiers iter_function_identifiers rename_with
   ident_any ident_var ident_read ident_write ident_fn
